@@ -32,6 +32,7 @@ type LoopSpec struct {
 	Invariants []*Clause
 	Decreases  *Clause
 	Unroll     int // >0: unroll this many times instead of using an invariant (bounded by operand width)
+	WritesFresh bool // every heap write in the loop targets an object allocated after function entry (or a loop-invariant root)
 }
 
 // Contract is everything stated about one function.
@@ -43,6 +44,9 @@ type Contract struct {
 	Requires []*Clause
 	Ensures  []*Clause
 	Exsures  []*Clause // what holds when leaving by an error-valued panic; absent = such exits forbidden
+	Panics   []*Clause // conditions under which the function is allowed to panic (evaluated at each explicit panic)
+	Throws   bool      // may leave by an error-valued (non runtime.Error) panic
+	Recovers bool      // as a deferred function, a normal return stops a panic
 	Assigns  []*Clause
 	Loops    map[int]*LoopSpec
 	Trusted  bool   // contract is assumed, body not verified (external or explicitly trusted)
@@ -121,7 +125,7 @@ func fullKey(pkgPath, key string) string {
 }
 
 var clauseKinds = map[string]bool{"requires": true, "ensures": true, "exsures": true, "assigns": true,
-	"property": true, "loop": true, "trusted": true, "inline": true, "pure": true, "maypanic": true, "ghost": true, "mode": true, "note": true, "lemma": true}
+	"property": true, "loop": true, "trusted": true, "inline": true, "pure": true, "maypanic": true, "ghost": true, "panics": true, "throws": true, "recovers": true, "mode": true, "note": true, "lemma": true}
 
 // ParseContractFile reads //@ lines from a Go file (package contracts) or a .spec file (trusted, external).
 func (cs *ContractSet) ParseContractFile(path, pkgPath string, trusted bool) error {
@@ -276,6 +280,10 @@ func (cs *ContractSet) ParseContractFile(path, pkgPath string, trusted bool) err
 				cur.Pure = true
 			case "maypanic":
 				cur.MayPanic = true
+			case "throws":
+				cur.Throws = true
+			case "recovers":
+				cur.Recovers = true
 			case "lemma":
 				cur.Lemma = true
 			case "mode":
@@ -315,6 +323,11 @@ func (cs *ContractSet) ParseContractFile(path, pkgPath string, trusted bool) err
 					c := &Clause{Kind: fmt.Sprintf("loop%d.decreases", n), Text: txt, Where: where}
 					ls.Decreases = c
 					lastClause = c
+				case "writes":
+					if txt != "fresh" {
+						return fmt.Errorf("%s: only 'loop N writes fresh' is supported", where)
+					}
+					ls.WritesFresh = true
 				case "unroll":
 					k, err := strconv.Atoi(txt)
 					if err != nil {
@@ -337,6 +350,9 @@ func (cs *ContractSet) ParseContractFile(path, pkgPath string, trusted bool) err
 				case "exsures":
 					c.Ord = len(cur.Exsures)
 					cur.Exsures = append(cur.Exsures, c)
+				case "panics":
+					c.Ord = len(cur.Panics)
+					cur.Panics = append(cur.Panics, c)
 				case "assigns":
 					c.Ord = len(cur.Assigns)
 					cur.Assigns = append(cur.Assigns, c)
